@@ -59,6 +59,7 @@ def section_of(wo):
 HEADERS = {"H1": "usage:", "H2": "USAGE:"}
 TABLES["H1"] = ([], "")
 TABLES["H2"] = ([], "")
+TABLES["H3"] = ([], "")      # first pattern on the `Usage:` line, the others on continuation lines below it
 
 
 def header_of(wo):
@@ -145,7 +146,9 @@ def commands_of(lines):
 
 def script_text(lines, with_opts):
     h = header_of(with_opts)
-    if len(lines) == 1:
+    if with_opts == "H3":
+        u = "# Usage: prog %s\n" % show(lines[0]) + "".join("#        prog %s\n" % show(l) for l in lines[1:])
+    elif len(lines) == 1:
         u = "# %s prog %s\n" % (h, show(lines[0]))
     else:
         u = "# %s\n" % h + "".join("#   prog %s\n" % show(l) for l in lines)
@@ -280,7 +283,7 @@ def family_usages():
         out.append((l, "T3", av4))
     # F8: the `usage:` keyword in other spellings, one and several usage lines
     av8 = [list(t) for n in range(0, 4) for t in itertools.product(['a', 'b', 'v'], repeat=n)]
-    for hid in ("H1", "H2"):
+    for hid in ("H1", "H2", "H3"):
         for ls in ([('seq', [a, opt(x)])],), ([('seq', [a, opt(x)])], [('seq', [b, opt(y)])]), ([('seq', [a])], [('seq', [b])], [('seq', [x, y])]):
             out.append(([l[0] for l in ls], hid, av8))
     # F5: upper-case positionals, `<x> ...` with a blank before the dots
